@@ -23,8 +23,12 @@ Flags == <<"res_bytes", "res_equal", "res_presence", "env_header", "env_cells", 
 Changed(m) == SelectSeq(Flags, LAMBDA f : Has(m, f) /\ m[f])
 InputsFrozen(m) == Len(Changed(m)) = 0
 
-NodesAreInputNodes(out) ==
-  out.k = "ok" => \A j \in 1..Len(out.items) : out.items[j].t = "el" => out.items[j].r # 0
+(* refstep: the program reads `.reference`.  For a typed reference (`Patient/p1`) the proto stores type and id apart, so  *)
+(* the String element the path yields is built by the interpreter: a string primitive that is not a node of the input  *)
+(* is accepted there, and only there.                                                                                   *)
+NodesAreInputNodes(out, refstep) ==
+  out.k = "ok" => \A j \in 1..Len(out.items) :
+     out.items[j].t = "el" => (out.items[j].r # 0 \/ (refstep /\ out.items[j].fk = "prim" /\ out.items[j].ft = "string"))
 NoNullItems(out) ==
   out.k = "ok" => \A j \in 1..Len(out.items) : out.items[j].t \notin {"nil", "unk"}
 
@@ -33,7 +37,7 @@ JoinF(s) == IF Len(s) = 0 THEN "" ELSE s[1] \o (IF Len(s) > 1 THEN "+" ELSE "") 
 
 Verdict(o) ==
   LET frozen == InputsFrozen(o.mut)
-      own == o.checkown => NodesAreInputNodes(o.out)    \* path programs may legitimately yield elements of contained resources (unpacked copies)
+      own == o.checkown => NodesAreInputNodes(o.out, Has(o, "refstep") /\ o.refstep)    \* path programs may legitimately yield elements of contained resources (unpacked copies)
       good == frozen /\ own /\ ~IsFailure(o.out)
   IN [id |-> o.id, ok |-> good,
       sig |-> IF good THEN ""
